@@ -2,6 +2,7 @@ import LogosModel.Look.HirL
 import LogosModel.Look.LiveCert
 import LogosModel.Look.FastOracle
 import LogosModel.Look.SoundC
+import LogosModel.Look.TieC
 import Std.Data.HashMap
 import Std.Data.HashSet
 /-!
@@ -117,6 +118,48 @@ def certVerdictC (G : Graph) (prios : List Nat) (D : VecL) (T : Option (List LEn
       if validCB G prios D V C then s!"OKL {h.size} {G.states.size} {T.length}"
       else if !wfB G then "FAIL wf"
       else s!"FAIL {(firstBadC G prios V C).getD "?"}"
+
+/-- BFS over `(Δ, p)` pairs looking for a tie in some following context; returns (witness?, closure if exhausted) -/
+partial def tieSearchC (prios : List Nat) (queue : Array (LKey × Cls × List Nat)) (i : Nat)
+    (seen : Std.HashSet LKey) (fuel : Nat) : Option (Cls × List Nat × Cls) × Option (Std.HashSet LKey) :=
+  if fuel = 0 then (none, none) else
+  if h : i < queue.size then
+    let ((Δ, p), p0, w) := queue[i]
+    match allCls.find? (fun n => tieAtC prios p n Δ) with
+    | some n => (some (p0, w.reverse, n), none)
+    | none =>
+      let (queue, seen) := (List.range 256).foldl
+        (fun (acc : Array (LKey × Cls × List Nat) × Std.HashSet LKey) b =>
+          let k : LKey := (derivVC p b Δ, clsB b)
+          if !acc.2.contains k then (acc.1.push (k, p0, b :: w), acc.2.insert k) else acc) (queue, seen)
+      tieSearchC prios queue (i+1) seen (fuel - 1)
+  else (none, some seen)
+
+def clsName : Cls → String
+  | .none => "none" | .lf => "lf" | .cr => "cr" | .word => "word" | .other => "other"
+
+def hexOfL (w : List Nat) : String :=
+  if w.isEmpty then "-" else
+  String.join (w.map fun b =>
+    let d := fun (x : Nat) => if x < 10 then Char.ofNat (48 + x) else Char.ofNat (87 + x)
+    String.ofList [d (b / 16), d (b % 16)])
+
+/-- "TIE hex leaves prev,next" (confirmed by `tieC_witness`), "FREE n" (`tieFreeCBFast_sound`), or "UNKNOWN" -/
+def tieVerdictC (prios : List Nat) (D : VecL) (fuel : Nat) : String :=
+  let start : Array (LKey × Cls × List Nat) := allCls.toArray.map fun p0 => ((D, p0), p0, [])
+  let seen : Std.HashSet LKey := allCls.foldl (fun s p0 => s.insert (D, p0)) {}
+  match tieSearchC prios start 0 seen fuel with
+  | (some (p0, w, n), _) =>
+    let Δ := derivsVC p0 w D
+    let p := prevOf p0 w
+    if tieAtC prios p n Δ then
+      let ns := nullIdxC prios p n Δ
+      let mx := ns.foldl (fun m x => max m x.2) 0
+      let tops := (ns.filter fun x => x.2 == mx).map fun x => toString x.1
+      s!"TIE {hexOfL w} {",".intercalate tops} {clsName p0},{clsName n}"
+    else "BADWITNESS"
+  | (none, some S) => if tieFreeCBFast S.toList prios D then s!"FREE {S.size}" else "CHECKFAIL"
+  | (none, none) => "UNKNOWN"
 
 /-- does leaf `r` match `w` between classes `p` and `n` (by derivatives) -/
 def matchesCB (r : ReL) (p : Cls) (w : List Nat) (n : Cls) : Bool :=
